@@ -81,6 +81,10 @@ def generate(rng, tier):
         inits = [[fb(rng.choice([0.001, 0.3, 2.0, 40.0, 900.0]) * rng.choice([-1, 1])) for _ in range(2)] for _ in range(nc)]
         cases.append({"op": "multi", "f": rng.choice(["f32", "f64"]), "inits": inits, "accept": rng.choice([0.6, 0.8, 0.9]),
                       "seed": str(rng.getrandbits(64)), "n": rng.randint(1, 4), "d": rng.randint(0, 6), "progress": rng.random() < 0.4})
+        if cases[-1]["progress"]:
+            # run_progress computes split diagnostics of the returned draws, which need n_collect >= 4 (C10's own range;
+            # with fewer draws it panics while stacking the half-chains — outside the property, first seen in the thorough tier)
+            cases[-1]["n"] = rng.randint(4, 6)
     # ... and on the half-line target, whose log-density is -inf outside x0 > 0 (steps that leave the support)
     for _ in range(24 if tier == "quick" else 240):
         f = rng.choice(["f32", "f64"])
